@@ -1,10 +1,22 @@
 """C11 - regex, partial-name and batched specifications equal their expansions (relational, by construction).
 
-  C11.R1  the regex -> names conversion dominates every graph query; queries, detectors and message generators read the converted
-          requirement, never the raw one; both sides are converted
-  C11.R2  a regex contributes exactly {ModuleNameFilter(m) : m in arch.modules, re.match(pattern, m)}; ImpossibleMatch precedes a verdict
-  C11.R3  the deprecated partial-name form is ModuleNameRegexFilter(convert_partial_match_to_regex(name)) per element
-  C11.R4  batch = conjunction: per (subject, object) pair resp. per subject computations are independent (no shared state, no dropped key)
+Every rule works on the *inlined view* (core/inline_stmt.py) of a public entry point and on role-based anchors, never on private
+names, local variable names or one loop idiom:
+
+  C11.R1  entry = the matcher method Rule.assert_applies runs on the evaluable.  In its view: ModuleNameConverter.convert runs
+          unconditionally before every graph query, against the evaluable being queried, on the requirement as given to the
+          constructor; the queries, and the detectors / message generators built outside the view, receive values whose provenance
+          (c11_prov.py) is this evaluation's conversion of both sides - never pre-state (raw or stale).  State kept between
+          evaluations is only a violation if Rule.assert_applies does not create a fresh matcher per call.
+  C11.R2  view of ModuleNameConverter.convert, described as collections (c11_coll.py): result[0] is exactly
+          {ModuleNameFilter(m) | m in arch.modules, f in modules, f regex, re.match(f.identifier, m)} + {f | f in modules, f not regex};
+          no early exit from the scan; ImpossibleMatch is raised iff the set of never-matched patterns (all patterns minus matched
+          ones, in any of its spellings) is non-empty, and the test dominates the return.
+  C11.R3  view of Rule.have_name_containing: the list stored into the rule's state is
+          {ModuleNameRegexFilter(name=convert_partial_match_to_regex(n)) | n in names}, unfiltered, stored on every path.
+  C11.R4  views of the three public queries of EvaluableArchitecture: the result has one entry per element of the given collections
+          (no filter), each value is a graph search over (graph, own key, whole given collections) only, nothing is carried from one
+          key to the next, every entry is stored under its own key unconditionally.
 """
 
 from __future__ import annotations
@@ -12,17 +24,16 @@ from __future__ import annotations
 import ast
 from dataclasses import dataclass
 
-from core.guards import atom, atoms_of, f_not, implies
-from core.loader import AnalysisError, FuncInfo, Repo, ancestors, calls_in, header, norm, own_nodes, parent
-from core.report import Result
-
+from core.guards import f_or, implies
 from core.inline_stmt import inline_view
+from core.loader import AnalysisError, FuncInfo, Repo, ancestors, header, norm, own_nodes, parent
+from core.report import Result
 
 from .c11_coll import Collections, flatten
 from .c11_lib import Fn, names_loaded, show
 from .c11_prov import Provenance, field_key
-from .common import reachable_funcs, assigned_names, cfg_of, conds, dotted, guard_formula, truth, is_attr_call, loop_carried, loops_around, stmt_of, types_of, upward_exposed, where
-from .tables import EVAL_GRAPH, EXPLICIT_QUERY, MATCHER, MODREQ, OTHER_QUERIES, RULE, SEARCHES
+from .common import assigned_names, cfg_of, dotted, guard_formula, reachable_funcs, stmt_of, types_of, upward_exposed, where
+from .tables import EXPLICIT_QUERY, MATCHER, MODREQ, OTHER_QUERIES, RULE, SEARCHES
 
 EVAL_ARCH = "pytestarch.eval_structure.evaluable_architecture"
 
@@ -49,10 +60,6 @@ def _allow_r1(caller: FuncInfo, callee: FuncInfo) -> bool:
         return callee.module.name not in (SEARCHES,)
     repo = callee.module.repo  # type: ignore[attr-defined]
     return callee.cls in _matcher_classes(repo)
-
-
-def _allow_all(caller: FuncInfo, callee: FuncInfo) -> bool:
-    return True
 
 
 def _members(t) -> list:
@@ -841,8 +848,6 @@ def run_r3(repo: Repo, res: Result) -> None:
                 bad.append(f"an element `{var}` of `{param}` becomes `{show(elt)}`, not ModuleNameRegexFilter(name=convert_partial_match_to_regex({var}))")
     res.add("C11.R3", key, not bad, "each partial name becomes ModuleNameRegexFilter(convert_partial_match_to_regex(name))" if not bad else bad[0] + ": the partial-name form is not the regex filter of its translation", where(view, view.node), kind="flow")
     # every given name yields a filter, and the list reaches the rule's configuration on every path
-    from core.guards import f_or
-
     first = next((c for _, cs in relevant for c in cs if c.node is not None and parent(c.node) is not None), None)
     ctx = guard_formula(view, stmt_of(first.node)) if first is not None else None
     stored = f_or([guard_formula(view, stmt) for stmt, _ in relevant])
